@@ -1356,6 +1356,24 @@ pub mod witness_c15 {
                 eprintln!("c15store: policies changed across reopen");
                 bad = true;
             }
+            // a stored policy is replaced by whatever is set later — the default policy and the empty NothingExcept included
+            for later in [DownloadPolicy::default(), DownloadPolicy::NothingExcept(vec![]), DownloadPolicy::EverythingExcept(vec![])] {
+                store.set_download_policy(&ns1.id(), p1.clone()).unwrap();
+                store.set_download_policy(&ns1.id(), later.clone()).unwrap();
+                let got = store.get_download_policy(&ns1.id()).unwrap();
+                if got != later {
+                    eprintln!("c15store: after setting {later:?} over a stored policy, {got:?} is read back");
+                    bad = true;
+                }
+            }
+            store.flush().unwrap();
+        }
+        {
+            let mut store = Store::new_impl(redb::Database::create(&path).unwrap()).unwrap();
+            if store.get_download_policy(&ns1.id()).unwrap() != DownloadPolicy::EverythingExcept(vec![]) {
+                eprintln!("c15store: the policy set last is not the one read after reopen");
+                bad = true;
+            }
         }
         let _ = std::fs::remove_file(&path);
         bad
